@@ -521,16 +521,21 @@ impl<'a> Dependency<'a> {
         let other_ty: &TypeLayout = other.ident.ty()?.as_ref();
         let self_ty: &TypeLayout = self.ident.ty()?.as_ref();
 
-        if let TypeLayout::CallbackVariable(ptr_ty) = other_ty {
-            if other.cycles_needed > 0 {
-                // `modify x = value` types `x` after the value: an `int` stored in an `int?` or in an alias of
-                // `int` is still the variable this scope supplies (the assignment itself was checked the same way)
-                return Ok(self_ty == ptr_ty.as_ref()
-                    || self_ty.eq_complex(
-                        ptr_ty.as_ref(),
-                        &TypecheckFlags::<&ClassType>::classless(),
-                    ));
-            }
+        if other.cycles_needed > 0 {
+            // The dependency comes from a child scope.  An assignment there types the name after the VALUE it
+            // stores (`modify x = 3` into an `int?`, `"a"` into a variable first seen holding `"q1"`, a value of
+            // an alias type), so the same variable can show up with a type that is only compatible with, not
+            // equal to, the one this scope supplies; the assignment itself was checked the same way.
+            let dependency_ty = match other_ty {
+                TypeLayout::CallbackVariable(ptr_ty) => ptr_ty.as_ref(),
+                other_ty => other_ty,
+            };
+
+            return Ok(self_ty == dependency_ty
+                || self_ty.eq_complex(
+                    dependency_ty,
+                    &TypecheckFlags::<&ClassType>::classless(),
+                ));
         }
 
         Ok(self_ty == other_ty)
